@@ -160,6 +160,12 @@ class Problem:
         # Propagator initialization
         self.algorithms = np.empty(self.propagator_nb, dtype=np.uint8)
         # We will store propagator specific data in a global arrays, we need to compute variables and data bounds.
+        bound_max = np.iinfo(np.uint16).max
+        if (
+            sum(len(prop_vars) for prop_vars, _, _ in self.propagators) > bound_max
+            or sum(len(prop_params) for _, _, prop_params in self.propagators) > bound_max
+        ):
+            raise ValueError(f"The propagators have more than {bound_max} variables or parameters")
         bound_nb = max(1, self.propagator_nb)
         self.var_bounds = np.zeros((bound_nb, 2), dtype=np.uint16)  # some redundancy here
         self.param_bounds = np.zeros((bound_nb, 2), dtype=np.uint16)  # some redundancy here
